@@ -27,5 +27,5 @@ Emitting ==
   depth > 0 => PrintT(ToJson([id |-> "sim/" \o ToString(lane) \o "/" \o Render(ex), ast |-> ex, text |-> Render(ex), depth |-> depth]))
 
 (* role 1 on every simulated program: the abstract machine is total on it *)
-MachineTotal == Eval(ex, Env(BaseVars), Input).k \in {"ok", "err", "any"}
+MachineTotal == Eval(ex, Env(BaseVars), Input).k \in {"ok", "err", "any", "eoe"}
 =============================================================================
